@@ -21,11 +21,14 @@ from .interp import (Interp, explore, ProgExc, PathEnd, Drift, Obj, State, LoopS
 from .sym import Unsupported, SymInt, SymBool, is_sym
 
 HARNESSES = {}
+KNOWN_IDS = set()     # ids listed under "findings" in /verif/known_findings.json (set by propcheck)
 
 
 class Harness(object):
     def __init__(self, name, funcs, props, body, variants=None, level="proof", bound="", replay=None,
-                 note="", setup=None):
+                 note="", setup=None, split_variants=False, weight=1):
+        self.split_variants = split_variants
+        self.weight = weight
         self.name = name
         self.funcs = funcs if isinstance(funcs, (list, tuple)) else [funcs]
         self.props = props
@@ -38,9 +41,11 @@ class Harness(object):
         self.setup = setup
 
 
-def harness(name, funcs, props, variants=None, level="proof", bound="", replay=None, note="", setup=None):
+def harness(name, funcs, props, variants=None, level="proof", bound="", replay=None, note="", setup=None,
+            split_variants=False, weight=1):
     def deco(body):
-        HARNESSES[name] = Harness(name, funcs, props, body, variants, level, bound, replay, note, setup)
+        HARNESSES[name] = Harness(name, funcs, props, body, variants, level, bound, replay, note, setup,
+                                  split_variants, weight)
         return body
     return deco
 
@@ -83,8 +88,11 @@ class VC(object):
         for c in conds:
             self.st.assume(c)
 
-    def ensure(self, name, cond, kind="ensures"):
-        self.st.check("%s/%s" % (self.hname, name), cond, kind=kind)
+    def ensure(self, name, cond, kind="ensures", known=None):
+        self.st.check("%s/%s" % (self.hname, name), cond, kind=kind, known=known)
+
+    def observe(self, name, v):
+        self.st.observe(name, v)
 
     def unreachable(self, name):
         self.st.check("%s/%s" % (self.hname, name), False, kind="unreachable")
@@ -146,13 +154,69 @@ def get_interp(repo):
     return it
 
 
-def run_harness(name, repo, tier="quick", seed=0):
+_PENDING = []
+
+
+def _discharge_one(i):
+    """runs in a forked worker: solve obligation i of _PENDING, build the replay for a refutation"""
+    (ob, st, vname, vparam, h, timeout_ms) = _PENDING[i]
+    status, backend, secs, model = VCM.solve(ob.pc, ob.goal, timeout_ms, hints=st.hints)
+    orec = {"name": ob.name, "kind": ob.kind, "status": status, "backend": backend,
+            "time": round(secs, 4), "variant": vname}
+    if status == "refuted" and ob.known:
+        active = [(kid, c) for (kid, c) in ob.known if kid in KNOWN_IDS]
+        if active:
+            extra_pc = [z3.Not(c) for (_, c) in active]
+            s2, b2, t2, m2 = VCM.solve(list(ob.pc) + extra_pc, ob.goal, timeout_ms, hints=st.hints)
+            orec["time"] = round(secs + t2, 4)
+            if s2 == "proved":
+                orec["status"] = "known"
+                orec["backend"] = b2
+                orec["known_ids"] = [kid for kid, _ in active]
+                return orec
+            elif s2 == "refuted":
+                model = m2
+                ob.pc = list(ob.pc) + extra_pc
+            else:
+                orec["status"] = "unknown"
+                return orec
+    if orec["status"] == "refuted":
+        leaves = [s.e for s in st.syms.values()]
+        small = VCM.minimise(ob.pc, ob.goal, leaves)
+        if small is not None:
+            model = small
+        md = VCM.model_to_dict(model, st.syms) if model is not None else {}
+        if model is not None:
+            for on, oe in ob.observe.items():
+                try:
+                    ov = model.eval(oe, model_completion=True)
+                    md["obs:" + on] = ov.as_long() if z3.is_int_value(ov) else str(ov)
+                except z3.Z3Exception:
+                    pass
+        orec["model"] = md
+        orec["smt2"] = VCM._smt2(ob.pc, ob.goal)[:6000]
+        extra = None
+        if h.replay is not None and model is not None:
+            try:
+                extra = h.replay(md, vparam, model, st)
+            except Exception as e:      # replay construction failed: keep the refutation
+                extra = {"error": "replay construction failed: %r" % (e,)}
+        orec["replay"] = extra
+    elif orec["status"] == "proved" and backend != "simplify" and i % 97 == 0:
+        orec["sample_smt2"] = VCM._smt2(ob.pc, ob.goal)[:3000]
+    return orec
+
+
+def run_harness(name, repo, tier="quick", seed=0, jobs=None, variant_index=None):
     """Runs every variant of the harness; returns a JSON-able record."""
+    import multiprocessing as mp
     h = HARNESSES[name]
     t0 = time.time()
     rec = {"harness": name, "functions": [], "props": h.props, "level": h.level, "bound": h.bound,
-           "variants": [], "obligations": [], "undecided": [], "refuted": [], "paths": 0, "note": h.note}
+           "variants": [], "obligations": [], "undecided": [], "refuted": [], "known": [], "paths": 0,
+           "note": h.note, "duplicates_merged": 0}
     timeout_ms = 10000 if tier == "quick" else 120000
+    jobs = jobs or int(os.environ.get("VERIF_INNER_JOBS", "8"))
     try:
         interp = get_interp(repo)
         for fn in h.funcs:
@@ -169,7 +233,10 @@ def run_harness(name, repo, tier="quick", seed=0):
         interp.yield_hook = None
         if h.setup is not None:
             h.setup(interp)
-        for (vname, vparam) in h.variants:
+        del _PENDING[:]
+        seen = set()
+        variants = h.variants if variant_index is None else [h.variants[variant_index]]
+        for (vname, vparam) in variants:
             def run(st, vparam=vparam, vname=vname):
                 v = VC(interp, st, name + ("[%s]" % vname if vname else ""), vparam)
                 h.body(v)
@@ -182,31 +249,33 @@ def run_harness(name, repo, tier="quick", seed=0):
                 elif pr.outcome == "drift":
                     rec["undecided"].append({"reason": "drift", "detail": pr.detail, "variant": vname})
                 for ob in pr.state.obligations:
-                    status, backend, secs, model = VCM.solve(ob.pc, ob.goal, timeout_ms, hints=pr.state.hints)
-                    orec = {"name": ob.name, "kind": ob.kind, "status": status, "backend": backend,
-                            "time": round(secs, 4), "variant": vname}
-                    if status == "refuted":
-                        leaves = [s.e for s in pr.state.syms.values()]
-                        small = VCM.minimise(ob.pc, ob.goal, leaves)
-                        if small is not None:
-                            model = small
-                        md = VCM.model_to_dict(model, pr.state.syms) if model is not None else {}
-                        orec["model"] = md
-                        orec["smt2"] = VCM._smt2(ob.pc, ob.goal)[:6000]
-                        extra = None
-                        if h.replay is not None and model is not None:
-                            try:
-                                extra = h.replay(md, vparam, model, pr.state)
-                            except Exception as e:      # replay construction failed: keep the refutation
-                                extra = {"error": "replay construction failed: %r" % (e,)}
-                        orec["replay"] = extra
-                        rec["refuted"].append(orec)
-                    elif status == "unknown":
-                        rec["undecided"].append({"reason": "solver-unknown", "detail": ob.name, "variant": vname})
-                    if len(rec["obligations"]) < 3 and status == "proved" and "sample_smt2" not in rec:
-                        if backend != "simplify":
-                            rec["sample_smt2"] = VCM._smt2(ob.pc, ob.goal)[:3000]
-                    rec["obligations"].append(orec)
+                    key = (ob.name, vname, tuple(e.get_id() for e in ob.pc), ob.goal.get_id())
+                    if key in seen:
+                        rec["duplicates_merged"] += 1
+                        continue
+                    seen.add(key)
+                    _PENDING.append((ob, pr.state, vname, vparam, h, timeout_ms))
+        rec["explore_s"] = round(time.time() - t0, 3)
+        n = len(_PENDING)
+        if n > 24 and jobs > 1:
+            ctx = mp.get_context("fork")
+            with ctx.Pool(min(jobs, n)) as pool:
+                orecs = pool.map(_discharge_one, range(n), chunksize=max(1, n // (jobs * 8)))
+        else:
+            orecs = [_discharge_one(i) for i in range(n)]
+        for orec in orecs:
+            if orec["status"] == "refuted":
+                rec["refuted"].append(orec)
+            elif orec["status"] == "known":
+                rec["known"].append(orec)
+            elif orec["status"] == "unknown":
+                rec["undecided"].append({"reason": "solver-unknown", "detail": orec["name"],
+                                         "variant": orec["variant"]})
+            if "sample_smt2" in orec:
+                sm = orec.pop("sample_smt2")
+                rec.setdefault("sample_smt2", sm)
+            rec["obligations"].append(orec)
+        del _PENDING[:]
     except Exception as e:                              # engine crash: never a violation
         rec["crash"] = traceback.format_exc()
     rec["wall_s"] = round(time.time() - t0, 3)
